@@ -7,7 +7,7 @@ CONSTANTS
   BO = 3
   IVALS <- IvOne
   ASIS = {}
-  ENV = {"flip", "expire", "stop"}
+  ENV = {"flip", "stop"}
 INVARIANT InvFixed
 PROPERTY Live
 CHECK_DEADLOCK FALSE
